@@ -31,7 +31,7 @@ import (
 
 // AllKinds is the full action alphabet (per user), simplest first.
 var AllKinds = []string{"new", "comment", "title", "status", "label", "editcomment", "twoedits", "commentlast", "setmeta",
-	"idmutate", "idsetmeta", "push", "pull", "remove", "resolveall", "reopen"}
+	"idmutate", "idsetmeta", "push", "pull", "remove", "resolveall", "reopen", "stage"}
 
 // Params selects the alphabet and the acting users.
 type Params struct {
@@ -71,6 +71,12 @@ type model struct {
 	lastPull *pullInfo
 	views    map[string]View
 	staged   map[string]bool
+	// the last action was a reopen that closed a cache holding an uncommitted operation
+	reopenDiscarded bool
+	// users whose cache was, at some point of the path, closed with an uncommitted operation: the
+	// persisted excerpt of that bug stays ahead of git until the bug is edited again, and shows up
+	// under other observables later (e.g. a participant query after the identity was renamed)
+	tainted map[string]bool
 
 	pendingViol []xstate.Violation
 }
@@ -323,7 +329,7 @@ func (m *model) Actions() []string {
 		first, last := m.targets(x)
 		for _, k := range m.kinds[x] {
 			switch k {
-			case "comment", "title", "status", "label", "editcomment", "twoedits", "remove", "setmeta":
+			case "comment", "title", "status", "label", "editcomment", "twoedits", "remove", "setmeta", "stage":
 				if first == "" {
 					continue
 				}
@@ -533,6 +539,19 @@ func (m *model) apply(k, x string) (string, []xstate.Violation, error) {
 			return "commit-" + errTag(err), nil, nil
 		}
 		return "ok", m.ackCheck(x, k, first, []entity.Id{op.Id()}), nil
+	case "stage":
+		// an operation is added and NOT committed (what a front end staging several operations, or a
+		// bridge importer, does); it stays pending on the loaded instance across the following actions
+		m.nEdit[x]++
+		m.note(x, fmt.Sprintf("stage%d", m.idx(first)))
+		b, err := c.Bugs().Resolve(first)
+		if err != nil {
+			return "resolve-" + errTag(err), nil, nil
+		}
+		if _, _, err := b.AddComment(fmt.Sprintf("pending %s%d papaya", x, n)); err != nil {
+			return "edit-" + errTag(err), nil, nil
+		}
+		return "ok", nil, nil
 	case "twoedits":
 		// first edit staged, then every other bug is resolved (memory pressure: with 3+ bugs
 		// and 2 slots something must be evicted, but never an entity with staged operations),
@@ -652,6 +671,14 @@ func (m *model) apply(k, x string) (string, []xstate.Violation, error) {
 		}
 		return out, nil, nil
 	case "reopen":
+		// Closing while an operation is still pending on a loaded bug discards that operation. Whether
+		// the cache then still agrees with the git data is judged like any other reopen, under its own
+		// signature (see Check).
+		m.reopenDiscarded = false
+		if hung, panicked := m.guarded(func() { _, m.reopenDiscarded = ComputeView(c) }); hung || panicked != "" {
+			m.hung = "reopen"
+			return "hung", []xstate.Violation{{Oracle: "c11.serves", Sig: "hang-or-panic/before-reopen", Detail: fmt.Sprintf("user %s: reading the cache before closing it: hung=%v %s", x, hung, panicked)}}, nil
+		}
 		if err := c.Close(); err != nil {
 			return "", nil, fmt.Errorf("close cache: %w", err)
 		}
@@ -660,6 +687,13 @@ func (m *model) apply(k, x string) (string, []xstate.Violation, error) {
 			return "", nil, err
 		}
 		m.hist[x] = nil
+		if m.reopenDiscarded {
+			if m.tainted == nil {
+				m.tainted = map[string]bool{}
+			}
+			m.tainted[x] = true
+			m.note(x, "reopened-discarding-pending-operation")
+		}
 		return "ok", nil, nil
 	}
 	return "", nil, fmt.Errorf("unknown action kind %s", k)
